@@ -177,6 +177,20 @@ std::string opGenGame(const std::vector<std::string>& a) {
                     if (epAtk & (1ULL << m.to().asInt())) w = std::max(w, pawn ? 200 : 120);
                 }
             }
+            if (style & 48) {           // one-sided pawn relays: side F (bit 4: white, bit 5: black) captures with pawns and keeps all its pawns
+                bool fWhite = (style & 16) != 0;
+                if (wtm == fWhite) {
+                    if (pawn && capture) w = 600;
+                    else if (pawn) w = (m.promoteTo() != Piece::EMPTY) ? 1 : 30;
+                    else w = 10;
+                } else {
+                    U64 fAtk = fWhite ? BitBoard::wPawnAttacksMask(pos.pieceTypeBB(Piece::WPAWN)) : BitBoard::bPawnAttacksMask(pos.pieceTypeBB(Piece::BPAWN));
+                    int victim = pos.getPiece(m.to());
+                    if (victim == (fWhite ? Piece::WPAWN : Piece::BPAWN) || ep) w = 1;
+                    else if (fAtk & (1ULL << m.to().asInt())) w = 300;
+                    else w = 10;
+                }
+            }
             idx.push_back(k); wt.push_back(w);
         }
         if (idx.empty()) break;
